@@ -364,7 +364,7 @@ class Raised(Exception):
         self.lineno = lineno
 
 
-_PURE_STR_METHODS = ({n_ for n_ in dir(str) if not n_.startswith('_')} | {'decode', 'hex'}) - {'format', 'format_map', 'join', 'maketrans', 'translate'}
+_PURE_STR_METHODS = ({n_ for n_ in dir(str) if not n_.startswith('_')} | {'decode', 'hex', 'translate'}) - {'format', 'format_map', 'join', 'maketrans'}
 
 
 class _NotPlain(Exception):
@@ -1513,6 +1513,8 @@ class Interp:
             l = TypeV(l.name)
         if isinstance(r, Prim) and r.name in _BUILTIN_TYPE_NAMES:
             r = TypeV(r.name)
+        if isinstance(l, FuncV) and isinstance(r, FuncV):
+            return l.fn is r.fn and l.env is r.env      # the same function object, however it was looked up
         if isinstance(l, (ListV, DictV, SetV, ObjV, OpaqueV, IterV, PartialV, ExcV, StringIOV)) or isinstance(r, (ListV, DictV, SetV, ObjV, OpaqueV, IterV, PartialV, ExcV, StringIOV)):
             if isinstance(l, (Sym, SymStr, ValueV)) or isinstance(r, (Sym, SymStr, ValueV)):
                 return None
@@ -2313,6 +2315,22 @@ class Interp:
             if not args:
                 return TupleV([]) if not getattr(self, 'concrete_context', False) else DictV([])
             return args[0]
+        if name in ('bytes', 'bytearray') and not kwargs and len(args) <= 1:
+            # bytes() / bytes(n) / bytes(iterable of ints) / bytes(b'...') on constants: as the library defines it (module-level tables
+            # are built this way, so not only in concrete mode)
+            try:
+                if not args:
+                    return Const(b'')
+                if isinstance(args[0], Const) and isinstance(args[0].v, (bytes, int)) and not isinstance(args[0].v, bool):
+                    return Const(bytes(args[0].v))
+                if isinstance(args[0], (ListV, TupleV, IterV)) or (isinstance(args[0], Const) and isinstance(args[0].v, (tuple, list, range))):
+                    peek_ = list(args[0].items[args[0].pos:]) if isinstance(args[0], IterV) else (list(args[0].items) if not isinstance(args[0], Const) else None)
+                    if peek_ is None or all(isinstance(x, Const) and isinstance(x.v, int) for x in peek_):
+                        items_ = self.iterate(args[0], node)
+                        return Const(bytes([x.v for x in items_]))
+            except (ValueError, TypeError, OverflowError) as e:
+                raise Raised('%s: %s' % (type(e).__name__, e), getattr(node, 'lineno', 0))
+            return Sym('%s(%s)' % (name, ','.join(_prov(a) for a in args)))
         if name in ('int', 'float'):
             if getattr(self, 'concrete_context', False) and len(args) == 1 and isinstance(args[0], Const) and not kwargs:
                 try:
@@ -2735,10 +2753,19 @@ class Interp:
         return Const(all(self.truth(x, n) for x in self.iterate(a[0], n)))
 
     def p_take(self, a, k, n):
-        items = self.iterate(a[1], n)
         cnt = a[0]
         if isinstance(cnt, Const) and isinstance(cnt.v, int) and not isinstance(cnt.v, bool):
-            return ListV(items[:max(cnt.v, 0)], lazy=True)
+            src_ = a[1]
+            if isinstance(src_, IterV) or (isinstance(src_, ListV) and getattr(src_, 'lazy', False)):
+                avail = src_.items[src_.pos:] if isinstance(src_, IterV) else list(src_.items)
+                used = min(len(avail), max(cnt.v, 0))
+                if isinstance(src_, IterV):
+                    src_.pos += used
+                else:
+                    del src_.items[:used]
+                return ListV(avail[:used], lazy=True)
+            return ListV(self.iterate(src_, n)[:max(cnt.v, 0)], lazy=True)
+        items = self.iterate(a[1], n)
         if isinstance(cnt, Sym) and items and not (isinstance(cnt, Const)):
             # an unknown count and known items: either everything is taken or the tail is cut - the same fact a printer's own test
             # "len(value) > limit" decides; a cut is represented by dropping the last item
